@@ -282,19 +282,28 @@ def _is_generator_fn(fn):
 _FRESH_CALLS = {"list", "dict", "set", "sorted", "copy", "deepcopy", "reversed", "bytearray", "deque"}
 
 
-def _fresh_expr(e, fn, depth=0):
+def _fresh_expr(e, fn, depth=0, prog=None, modname=None):
     """`e` always evaluates to a container object nobody else holds: a literal / comprehension, a copy, a full slice,
     a concatenation, or a local name of `fn` every binding of which is one of those."""
     if isinstance(e, (ast.List, ast.Dict, ast.Set, ast.ListComp, ast.DictComp, ast.SetComp)):
         return True
     if isinstance(e, ast.Call):
-        return (dotted_parts(e.func) or [""])[-1] in _FRESH_CALLS
+        if (dotted_parts(e.func) or [""])[-1] in _FRESH_CALLS:
+            return True
+        if prog is not None and modname is not None and depth < 3:
+            # a function of the package every return of which hands out a fresh object
+            parts = dotted_parts(e.func)
+            r = prog.resolve_chain(modname, parts) if parts else None
+            if r is not None and r[0] == "func" and not _is_generator_fn(r[1].node):
+                rets = [n for n in ast.walk(r[1].node) if isinstance(n, ast.Return)]
+                return bool(rets) and all(n.value is not None and _fresh_expr(n.value, r[1].node, depth + 1, prog, r[1].module.name) for n in rets)
+        return False
     if isinstance(e, ast.Subscript) and isinstance(e.slice, ast.Slice):
         return True
     if isinstance(e, ast.BinOp) and isinstance(e.op, (ast.Add, ast.Mult)):
         return True
     if isinstance(e, ast.IfExp):
-        return _fresh_expr(e.body, fn, depth) and _fresh_expr(e.orelse, fn, depth)
+        return _fresh_expr(e.body, fn, depth, prog, modname) and _fresh_expr(e.orelse, fn, depth, prog, modname)
     if isinstance(e, ast.Name) and fn is not None and depth < 3:
         a = fn.args
         if e.id in {x.arg for x in a.args + a.kwonlyargs + a.posonlyargs} or (a.vararg and a.vararg.arg == e.id) or (a.kwarg and a.kwarg.arg == e.id):
@@ -313,7 +322,7 @@ def _fresh_expr(e, fn, depth=0):
                 return False
             elif isinstance(st, (ast.Global, ast.Nonlocal)) and e.id in st.names:
                 return False
-        return bool(binds) and all(_fresh_expr(b, fn, depth + 1) for b in binds)
+        return bool(binds) and all(_fresh_expr(b, fn, depth + 1, prog, modname) for b in binds)
     return False
 
 
@@ -346,7 +355,7 @@ def _always_given_fresh(prog, f, param):
                             arg = k.value
                         if k.arg is None:
                             return False
-                    if arg is None or not _fresh_expr(arg, encl):
+                    if arg is None or not _fresh_expr(arg, encl, 0, prog, m.name):
                         return False
                     for sub in list(ch.args) + [k.value for k in ch.keywords]:
                         if not visit(sub, e2):
